@@ -15,8 +15,8 @@ RULE = (
     "(refine) Hypothesis draws two adequate grids - eko make_grid-type layouts (n_low>=20 logarithmic nodes below 0.1, n_mid>=15 "
     "linear nodes above), degree>=3, xmin<=x/20, log or linear interpolation, class 'fine' = both at least make_grid(30,20) with "
     "degree>=4 in log mode -, a smooth PDF family x^a(1-x)^b(1+cx) per flavour, x<=0.7 and a configuration (kinds, processes, schemes, "
-    "PTO<=2, optionally scale variations at PTO 1); both runs are contracted with the PDF per order key and must agree within "
-    "eps*sum|O f/x| (eps = 1e-3 fine, 4e-2 otherwise; measured <=3.4e-5 resp. <=1.7e-2). (node) on one grid the operator at a node x_k and at x_k(1+-1e-8) must agree "
+    "PTO<=2, optionally scale variations at PTO 1, target-mass corrections 1-3 at PTO<=1 for structure functions smooth in x); both runs are contracted with the PDF per order key and must agree within "
+    "eps*sum|O f/x| (eps = 2e-4 fine, 8e-3 coarse in log mode, 4e-2 with a linear-mode grid; measured over six seeds <=3.4e-5, <=1.3e-3, <=3.1e-2). (node) on one grid the operator at a node x_k and at x_k(1+-1e-8) must agree "
     "entrywise within (L*delta*ln^p(1/delta) + floor)*scale with delta=1e-11, L=1e3, p=(0,1,3,5) and a quadrature-noise floor (1e-12,1e-7, "
     "1e-6,1e-5) per order: the operator is continuous (with the log-enhanced modulus of plus-distributions), a jump is a defect of the "
     "convolution bookkeeping. "
@@ -25,12 +25,19 @@ RULE = (
 ASSUMPTIONS = [
     "adequacy rule and envelopes calibrated on the tree (make_grid(30,20) d4 vs (40,30) d5: <=4e-4; (20,15) d3: <=5e-3; linear mode d4: <=1.5e-2)",
     "geometric grids are not adequate above x~0.5 and are not generated for the refinement clause",
+    "target-mass corrections (modes 1-3, PTO <= 1) are generated in the refinement clause for structure functions that are smooth in "
+    "x (ZM-VFNS, or the light component of a massive scheme): the TMC integrals interpolate F(u) itself, and a massive heavy-quark "
+    "F(u) has a threshold kink that first-order convergence does not bring within the envelopes",
     "refinement clause: x <= 0.7 and no shifted convolution point of a massive kernel (x(1+m2/Q2), x(1+sqrt(1+4m2/Q2))/2) inside (0.7, 1): "
     "closer to 1 the test PDFs (1-x)^b fall by orders of magnitude within one cell and the envelopes do not apply (seed 13: intrinsic charm at 0.956)",
 ]
 BUDGET = {"quick": {"examples": 1600, "wall": 560, "min_evaluations": 300}, "thorough": {"examples": 8000, "wall": 2400, "min_evaluations": 2000}}
-MANDATORY = {t: ["nontrivial", "clause:refine", "clause:node", "class:fine", "class:coarse", "mode:linear", "sv:on", "pto:2", "scheme:massive"] for t in ("quick", "thorough")}
+MANDATORY = {t: ["nontrivial", "clause:refine", "clause:node", "class:fine", "class:coarse", "mode:linear", "sv:on", "pto:2", "scheme:massive", "tmc:on"] for t in ("quick", "thorough")}
 SHRINK = {"quick": False, "thorough": True}
+
+
+# measured maxima over 6 seeds (about 6500 refinement cases): fine 3.4e-5, coarse-log 1.3e-3, coarse-linear 3.1e-2
+EPS = {"fine": 2e-4, "coarse-log": 8e-3, "coarse-linear": 4e-2}
 
 
 def make_grid(nlow, nmid, xmin):
@@ -72,9 +79,17 @@ def cases(draw, tier="quick"):
             grid_kw={"nmin": 6, "nmax": 12, "umin": 2.0, "umax": 4.0},
             x_classes=["node"] if clause == "node" else ["interior"],
             ew=False,
+            tmcs=(0,) if clause == "node" else (0, 0, 0, 1, 2, 3),
         )
     )
     th, ob, meta = cfg["theory"], cfg["obs"], cfg["meta"]
+    if th.get("TMC") and not (meta["scheme"] == "ZM-VFNS" or meta["heavyness"] == "light"):
+        # the target-mass integrals interpolate F(u) itself over the grid: a massive heavy-quark F(u) has a threshold kink
+        # in u (and intrinsic pieces live at shifted points up to 1), which no generated grid resolves to the envelopes
+        th["TMC"] = meta["tmc"] = 0
+    if th.get("TMC") and meta["pto"] > 1:
+        # a target-mass corrected point costs one evaluation per grid node: NLO at most
+        th["PTO"] = meta["pto"] = 1
     cfg["clause"] = clause
     kin = ob["observables"][meta["name"]][0]
     if clause == "refine":
@@ -130,6 +145,8 @@ def check_case(case):
     th, ob, meta, cl = case["theory"], copy.deepcopy(case["obs"]), case["meta"], case["clause"]
     name = meta["name"]
     sv_on = th.get("RenScaleVar") or th.get("FactScaleVar")
+    if th.get("TMC"):
+        v.label("tmc:on", f"tmc:{th['TMC']}")
     v.label(f"clause:{cl}", f"pto:{meta['pto']}", "sv:on" if sv_on else "sv:off", "scheme:massive" if meta["scheme"] != "ZM-VFNS" else "scheme:ZM-VFNS", f"kind:{meta['kind']}")
     kin = ob["observables"][name][0]
     with warnings.catch_warnings(), np.errstate(all="ignore"):
@@ -149,7 +166,8 @@ def check_case(case):
             v.label("class:fine" if fine else "class:coarse")
             if not all(g["log"] for g in case["grids"]):
                 v.label("mode:linear")
-            eps = 1e-3 if fine else 4e-2
+            sub = "fine" if fine else ("coarse-log" if all(g["log"] for g in case["grids"]) else "coarse-linear")
+            eps = EPS[sub]
             ga, gb = case["grids"]
             ndiff = sum([ga["nlow"] + ga["nmid"] != gb["nlow"] + gb["nmid"], ga["degree"] != gb["degree"], ga["log"] != gb["log"], ga["xmin"] != gb["xmin"]])
             nz = False
@@ -159,7 +177,7 @@ def check_case(case):
                 d = abs(fa - fb)
                 if s > 0:
                     nz = True
-                v.metric(f"refine:{'fine' if fine else 'coarse'}", d / (eps * s + 1e-300))
+                v.metric(f"refine:{sub}", d / (eps * s + 1e-300))
                 if not d <= eps * s + 1e-300:
                     v.fail(
                         f"C19:refine:{'fine' if fine else 'coarse'}:{meta['process']}:{meta['kind']}:{'sv' if (k[2] or k[3]) else 'central'}",
